@@ -359,7 +359,7 @@ def diffEntry (sm : Fields) (p : String × Val) : Option (String × Val) :=
   | none => some (p.1, p.2)
   | some v2 =>
     match diff p.2 v2 with
-    | .patch q => some (p.1, q)
+    | .patch q => if q.isNull then none else some (p.1, q)
     | _ => none
 
 /-- this key asks for its parent to be replaced -/
@@ -377,7 +377,9 @@ theorem diffEntry_key (sm : Fields) (p q : String × Val) (h : diffEntry sm p = 
   split at h
   · cases h; rfl
   · split at h
-    · cases h; rfl
+    · split at h
+      · cases h
+      · cases h; rfl
     · cases h
 
 theorem diffFields_cons (k : String) (v : Val) (rest sm : Fields) :
@@ -387,12 +389,19 @@ theorem diffFields_cons (k : String) (v : Val) (rest sm : Fields) :
       | some v2 =>
         match diff v v2 with
         | .same => ((diffFields rest sm).1, (diffFields rest sm).2)
-        | .patch p => (fset (diffFields rest sm).1 k p, (diffFields rest sm).2)
+        | .patch p =>
+          if p.isNull = true then ((diffFields rest sm).1, (diffFields rest sm).2)
+          else (fset (diffFields rest sm).1 k p, (diffFields rest sm).2)
         | .replaceParent => ((diffFields rest sm).1, true) := by
   rw [diffFields]
   cases fget sm k with
   | none => rfl
-  | some v2 => simp only []; cases diff v v2 <;> rfl
+  | some v2 =>
+    simp only []
+    cases diff v v2 with
+    | same => rfl
+    | patch p => simp only []
+    | replaceParent => rfl
 
 theorem fofList_snoc (l : Fields) (p : String × Val) :
     fofList (l ++ [p]) = fset (fofList l) p.1 p.2 := by
@@ -417,8 +426,13 @@ theorem diffFields_fst (s sm : Fields) :
         have he : diffEntry sm (k, v) = none := by simp [diffEntry, hg, hdf]
         simp only [he, ih]
       | patch p =>
-        have he : diffEntry sm (k, v) = some (k, p) := by simp [diffEntry, hg, hdf]
-        simp only [he, List.reverse_cons, fofList_snoc, ih]
+        cases hp : p.isNull with
+        | true =>
+          have he : diffEntry sm (k, v) = none := by simp [diffEntry, hg, hdf, hp]
+          simp only [he, ih, hp, if_true]
+        | false =>
+          have he : diffEntry sm (k, v) = some (k, p) := by simp [diffEntry, hg, hdf, hp]
+          simp only [he, List.reverse_cons, fofList_snoc, ih, hp, Bool.false_eq_true, if_false]
       | replaceParent =>
         have he : diffEntry sm (k, v) = none := by simp [diffEntry, hg, hdf]
         simp only [he, ih]
@@ -441,7 +455,7 @@ theorem diffFields_snd (s sm : Fields) : (diffFields s sm).2 = s.any (diffRP sm)
         simp [he, ih]
       | patch p =>
         have he : diffRP sm (k, v) = false := by simp [diffRP, hg, hdf]
-        simp [he, ih]
+        cases hp : p.isNull <;> simp [he, ih, hp]
       | replaceParent =>
         have he : diffRP sm (k, v) = true := by simp [diffRP, hg, hdf]
         simp [he]
